@@ -285,6 +285,7 @@ def run_hypothesis(rec: Recorder, engine: str, strategy, check: Callable[[Any], 
 def run_cases(rec: Recorder, engine: str, specs: Iterable[Any], check: Callable[[Any], CaseResult]) -> None:
     """Plain (enumerated / corpus) cases: no generation, no shrinking."""
     reported: set[str] = set()
+    hangs = 0
     for spec in specs:
         res = check(spec)
         rec.case(engine, spec, res)
@@ -292,6 +293,11 @@ def run_cases(rec: Recorder, engine: str, specs: Iterable[Any], check: Callable[
         if bad:
             rec.violation(engine, spec, bad, res.summary)
             reported.update(f.signature for f in bad)
+        if res.stop_search:
+            hangs += 1
+            if hangs >= 3:
+                rec.notes.append(f'{engine}: 3 cases hit the per-case watchdog; the rest of this enumeration was skipped')
+                break
 
 
 # ------------------------------------------------------------------------------------------------
